@@ -281,32 +281,35 @@ Qed.
 Lemma cgood_on_conn s c f : (forall k, getc s c = Some k -> cgood s (f k)) -> cgood s (on_conn s c f).
 Proof. intros H. unfold on_conn. destruct (getc s c) as [k|] eqn:Hg; [|exact I]. destruct (_ && _); [apply H; reflexivity|exact I]. Qed.
 
+Lemma cgood_on_lconn s c f : (forall k, getc s c = Some k -> cgood s (f k)) -> cgood s (on_lconn s c f).
+Proof. intros H. unfold on_lconn. apply cgood_on_conn. intros k Hg. destruct (gone s (k_loop k)); [exact I|apply H, Hg]. Qed.
+
 Lemma cgood_step strict s o : cgood s (step strict s o).
 Proof.
   destruct o; cbn [step].
   - apply cgood_finish, cgood_accept.
-  - destruct (negb (s_srv s)); [exact I|]. destruct (_ && _); [exact I|]. apply cgood_finish.
+  - destruct (negb (s_srv s)); [exact I|]. destruct (_ && _); [exact I|]. destruct (_ && _); [exact I|]. apply cgood_finish.
     apply cgood_bind; [apply cgood_srv_destroy_from|]. intros s1. apply cgood_ret, same_ud_conns. reflexivity.
   - apply cgood_finish, cgood_cli_connect.
   - apply cgood_finish, cgood_cli_destroy.
-  - destruct (getl s l) as [v|]; [|exact I]. destruct (q_idle v); [|exact I]. apply cgood_ret, same_ud_conns. reflexivity.
+  - destruct (getl s l) as [v|]; [|exact I]. destruct (q_idle v && negb (gone s l)); [|exact I]. apply cgood_ret, same_ud_conns. reflexivity.
   - destruct (getl s l) as [v|]; [|exact I]. destruct (q_batch v) as [|t rest]; [exact I|]. apply cgood_finish.
     eapply cgood_weaken; [|apply cgood_run_task]. apply same_ud_conns. reflexivity.
-  - destruct (getl s l) as [v|]; [|exact I]. destruct (q_batch v); [|exact I]. destruct (q_spent v); [exact I|].
-    apply cgood_finish, cgood_ret, same_ud_conns. reflexivity.
+  - destruct (getl s l) as [v|]; [|exact I]. destruct (q_batch v); [|exact I]. destruct (negb (q_drain v)); [exact I|].
+    destruct (quitting s l); [destruct (_ && _); [exact I|]|]; apply cgood_finish, cgood_ret, same_ud_conns; reflexivity.
   - destruct (getc s c) as [k|]; [|exact I]. apply cgood_finish, cgood_ev_step.
   - destruct (getc s c) as [k|] eqn:Hg; [|exact I]. destruct (k_delayed k); [exact I|]. destruct (negb _); [exact I|].
     apply cgood_finish, cgood_ret.
     assert (L : same_ud s (put s c (set_own k (k_ccb k) (k_mapped k) (k_urefs k) n))) by (apply same_ud_put; intros k0 Hk0; rewrite Hg in Hk0; injection Hk0 as <-; auto).
     destruct (k_alive k); [eapply same_ud_trans; [exact L|apply ud_force_close]|exact L].
-  - apply cgood_on_conn. intros k Hg. apply cgood_ret. destruct (cstate_eqb (k_st k) Connected); [|apply same_ud_refl].
+  - apply cgood_on_lconn. intros k Hg. apply cgood_ret. destruct (cstate_eqb (k_st k) Connected); [|apply same_ud_refl].
     apply same_ud_put. intros k0 Hk0. rewrite Hg in Hk0. injection Hk0 as <-. unfold shutdown_in_loop. destruct (k_wr _); auto.
-  - apply cgood_on_conn. intros k Hg. apply cgood_ret, ud_force_close.
-  - apply cgood_on_conn. intros k Hg. apply cgood_ret. destruct (k_closable k); [|apply same_ud_refl].
+  - apply cgood_on_lconn. intros k Hg. apply cgood_ret, ud_force_close.
+  - apply cgood_on_lconn. intros k Hg. apply cgood_ret. destruct (k_closable k); [|apply same_ud_refl].
     apply same_ud_put. intros k0 Hk0. rewrite Hg in Hk0. injection Hk0 as <-. auto.
-  - apply cgood_on_conn. intros k Hg. apply cgood_ret. destruct (cstate_eqb (k_st k) Connected); [apply ud_send_in_loop|apply same_ud_refl].
-  - apply cgood_on_conn. intros k Hg. destruct (k_added k); [apply cgood_ret, ud_start_read|exact I].
-  - apply cgood_on_conn. intros k Hg. destruct (k_added k); [apply cgood_ret, ud_stop_read|exact I].
+  - apply cgood_on_lconn. intros k Hg. apply cgood_ret. destruct (cstate_eqb (k_st k) Connected); [apply ud_send_in_loop|apply same_ud_refl].
+  - apply cgood_on_lconn. intros k Hg. destruct (k_added k); [apply cgood_ret, ud_start_read|exact I].
+  - apply cgood_on_lconn. intros k Hg. destruct (k_added k); [apply cgood_ret, ud_stop_read|exact I].
   - apply cgood_on_conn. intros k Hg. apply cgood_ret. apply same_ud_put. intros k0 Hk0. rewrite Hg in Hk0. injection Hk0 as <-. auto.
   - destruct (getc s c) as [k|] eqn:Hg; [|exact I]. destruct (k_urefs k); [exact I|]. destruct (_ && _ && _ && _ && _); [exact I|].
     apply cgood_finish, cgood_ret. apply same_ud_put. intros k0 Hk0. rewrite Hg in Hk0. injection Hk0 as <-. auto.
@@ -330,7 +333,7 @@ Proof.
       match goal with |- same_ud s (set_cli (put ?s1 _ _) _ _) => apply (same_ud_trans s s1); [apply same_ud_conns; reflexivity|];
         apply (same_ud_trans s1 (put s1 (a_conn a) (set_own k (k_ccb k) false (k_urefs k) (k_delayed k)))); [|apply same_ud_conns; reflexivity] end.
       apply same_ud_put. intros k0 Hk0. change (getc s (a_conn a) = Some k0) in Hk0. rewrite Hg in Hk0. injection Hk0 as <-. auto. }
-    destruct (_ && _ && _ && _); [exact I|].
+    destruct (_ && _ && _ && _); [exact I|]. destruct (a_loaded a && gone s (k_loop k)); [destruct strict; exact I|].
     apply cgood_finish, cgood_ret. destruct (a_loaded a); [|apply same_ud_conns; reflexivity].
     destruct (a_api a); try (apply same_ud_conns; reflexivity); match goal with |- same_ud s (enq ?s1 _ _) => apply (same_ud_trans s s1); [apply same_ud_conns; reflexivity|apply same_ud_enq] end.
 Qed.
